@@ -786,16 +786,17 @@ Definition fires_commit (amend : bool) (f : outcome_facts) : list firing :=
       else [])
    else []).
 
-Definition rebase_tail (pull : bool) (f : outcome_facts) : list firing :=
+Definition tail_end (pull : bool) (f : outcome_facts) : list firing :=
   let r := if pull then ra_pull_action else ra_none in
   let fin := with_pull (with_ra (with_refs (with_seq (env0 f) true None false None) (f_head_after f) (f_parent_after f) (f_head f) false) r)
                        true false false (f_origs f, f_news f) in
-  f_noise f ++
-  (if f_in_progress_after f then []
-   else match f_picks f with
-        | [] => []
-        | ps => [mkFiring HN_post_rewrite (APostRewrite true false ps) fin]
-        end).
+  if f_in_progress_after f then []
+  else match f_picks f with
+       | [] => []
+       | ps => [mkFiring HN_post_rewrite (APostRewrite true false ps) fin]
+       end.
+
+Definition rebase_tail (pull : bool) (f : outcome_facts) : list firing := f_noise f ++ tail_end pull f.
 
 (* git rebase [-i] <upstream>: pre-rebase, the checkout of onto, the picks, post-rewrite when something was rewritten *)
 Definition fires_rebase_start (pull : bool) (f : outcome_facts) : list firing :=
@@ -964,8 +965,10 @@ Definition wf_firing (c : command_class) (f : outcome_facts) : bool :=
       negb (f_in_progress f) && is_some (f_head f) && nz (f_upstream f) && is_some (f_upstream f)
       && forallb inert_noise (f_noise f)
       && (negb (f_uptodate f) || (negb (f_in_progress_after f) && match f_picks f with [] => true | _ => false end))
+      && (match f_picks f with [] => true | _ => f_exit_ok f end)
   | CRebaseContinue =>
       f_in_progress f && f_journal_active f && is_some (f_journal_start f) && forallb inert_noise (f_noise f)
+      && (match f_picks f with [] => true | _ => f_exit_ok f end)
   | CRebaseAbort =>
       f_in_progress f && negb (f_in_progress_after f) && f_exit_ok f && f_journal_active f
       && is_some (f_journal_start f) && opt_eqb (f_head_after f) (f_journal_start f) && forallb inert_noise (f_noise f)
@@ -1036,13 +1039,24 @@ Definition K2_rebase (f : outcome_facts) : bool :=
                      && opt_eqb (rebase_orig f) (Some (last (map fst ps) 0)))
        end.
 
+Definition cp_orig (f : outcome_facts) : option sha :=
+  if f_in_progress f && f_journal_active f then f_journal_start f else or_else (f_head f) (f_journal_start f).
+Definition cp_srcs (f : outcome_facts) : list sha :=
+  if f_in_progress f && f_journal_active f then f_journal_srcs f
+  else match f_head f with Some _ => f_srcs f | None => f_journal_srcs f end.
+Definition wrapper_cp_completes (f : outcome_facts) : bool :=
+  negb (f_in_progress_after f) && f_exit_ok f &&
+  match cp_orig f, f_head_after f with
+  | Some o, Some n => negb (o =? n) && (match f_news f with [] => false | _ => true end)
+  | _, _ => false
+  end.
+
 Definition K4_cherry_pick (f : outcome_facts) : bool :=
   match f_made f with
-  | [] => false
-  | [m] => negb (negb (f_in_progress_after f) && f_exit_ok f
-                 && list_eqb (if f_in_progress f then f_journal_srcs f else f_srcs f) [m_src m]
-                 && list_eqb (f_news f) [m_new m]
-                 && opt_eqb (if f_in_progress f then f_journal_start f else f_head f) (Some (m_parent m)))
+  | [] => wrapper_cp_completes f
+  | [m] => negb (wrapper_cp_completes f
+                 && list_eqb (cp_srcs f) [m_src m] && list_eqb (f_news f) [m_new m]
+                 && opt_eqb (cp_orig f) (Some (m_parent m)) && opt_eqb (f_head_after f) (Some (m_new m)))
   | _ => true
   end.
 
